@@ -84,6 +84,11 @@ def run(ctx):
     ctx.guard('W-WIRE', 'wiring', check_wiring, ctx, w)
     ctx.floor('W-WIRE', 10)
     ctx.guard('H-CUR', 'cursor', hrules.run_h, ctx, w, [LP, DI], only={DI: ('DWARFInfo._parse_line_program', 'DWARFInfo.line_program')})
+    # the v5 entry parser is built per header from that header's own format: nothing may be kept on the shared construct
+    from props import C10
+    ctx.rule('J-SHARED', 'parse-time methods of (shared, cached) constructs write nothing onto the construct')
+    ctx.guard('J-SHARED', 'constructs', C10.check_shared, ctx, w)
+    ctx.floor('J-SHARED', 7)
 
 
 def check_formatted(ctx, w):
